@@ -42,6 +42,9 @@ type Cfg struct {
 	RcvBuf    int
 	Ticker    bool
 	Listeners int // > 1: gnet.Rotate with that many listen addresses of the same network
+	// ExtraNets: further listeners (gnet.Rotate) on other networks, e.g. udp6 next to udp4; their
+	// addresses follow the Listeners ones in Engine.Addrs
+	ExtraNets []string
 }
 
 func (c Cfg) String() string {
@@ -64,8 +67,11 @@ func (c Cfg) String() string {
 		acc = "reuseport"
 	}
 	ls := ""
+	if len(c.ExtraNets) > 0 {
+		ls = fmt.Sprintf(" +listeners on %v", c.ExtraNets)
+	}
 	if c.Listeners > 1 {
-		ls = fmt.Sprintf(" listeners=%d", c.Listeners)
+		ls += fmt.Sprintf(" listeners=%d", c.Listeners)
 	}
 	return fmt.Sprintf("%s %s %s loops=%d %s lb=%d rcap=%d wcap=%d sndbuf=%d rcvbuf=%d ticker=%v%s", c.Net, side, mode, c.Loops, acc, c.LB, c.ReadCap, c.WriteCap, c.SndBuf, c.RcvBuf, c.Ticker, ls)
 }
@@ -586,7 +592,12 @@ func start(cfg Cfg, hooks EngineHooks, hostOverride string) (*Engine, error) {
 			e.Addrs = append(e.Addrs, d)
 			e.ProtoAddrs = append(e.ProtoAddrs, pa)
 		}
-		if cfg.Listeners > 1 {
+		for _, xn := range cfg.ExtraNets {
+			d := FreeAddr(xn)
+			e.Addrs = append(e.Addrs, d)
+			e.ProtoAddrs = append(e.ProtoAddrs, xn+"://"+d)
+		}
+		if cfg.Listeners > 1 || len(cfg.ExtraNets) > 0 {
 			go func() { e.done <- gnet.Rotate(e.h, e.ProtoAddrs, opts...) }()
 		} else {
 			go func() { e.done <- gnet.Run(e.h, e.ProtoAddr, opts...) }()
